@@ -14,8 +14,8 @@ Proof. intros H. exact (proj1 (forallb_forall _ _) real_schemas_wf_b (ty, s) H).
    recipient) and what contains it, Validator(s), ValidatorIndex,
    EvidenceDoubleSign.  Ids are the positions in the harness inventory:
    1 Block, 2 Transaction, 6 Body, 7 Transactions, 9 Validator, 12 Validators,
-   13 ValidatorIndex, 36 EvidenceDoubleSign, 41 MarkedBlockInfo. *)
-Definition lenient_types : list N := [1; 2; 6; 7; 9; 12; 13; 36; 41].
+   13 ValidatorIndex, 36 EvidenceDoubleSign, 41 MarkedBlockInfo, 47 BlocksData. *)
+Definition lenient_types : list N := [1; 2; 6; 7; 9; 12; 13; 36; 41; 47].
 Lemma lenient_types_exact :
   map fst (filter (fun p => negb (strict (snd p))) all_schemas) = lenient_types.
 Proof. vm_compute. reflexivity. Qed.
@@ -41,20 +41,32 @@ Definition w_tx : bytes := [206; 7; 1; 130; 82; 8; 192; 5; 131; 1; 2; 3; 128; 12
 Definition w_tx_re : bytes := [206; 7; 1; 130; 82; 8; 128; 5; 131; 1; 2; 3; 128; 128; 128].
 Lemma w_tx_accepted : exists v, decode_t S_types_Transaction w_tx = Some v /\
   encode_t S_types_Transaction v = Some w_tx_re.
-Proof. eexists. split; vm_compute; reflexivity. Qed.
+Proof. eexists. split; [vm_compute; reflexivity|]. vm_compute; reflexivity. Qed.
 
 (* ValidatorIndex: two addresses out of order *)
 Definition w_index : bytes :=
   [234; 148; 9;0;0;0;0;0;0;0;0;0;0;0;0;0;0;0;0;0;0;0; 148; 1;0;0;0;0;0;0;0;0;0;0;0;0;0;0;0;0;0;0;0].
 Lemma w_index_accepted : exists v b', decode_t S_state_ValidatorIndex w_index = Some v /\
   encode_t S_state_ValidatorIndex v = Some b' /\ bytes_eqb b' w_index = false.
-Proof. eexists. eexists. split; [|split]; vm_compute; reflexivity. Qed.
+Proof.
+  eexists. eexists. split; [vm_compute; reflexivity|]. split; [vm_compute; reflexivity|]. vm_compute; reflexivity.
+Qed.
 
 (* EvidenceDoubleSign with a one-byte "hash" *)
 Definition w_evidence : bytes := [198; 3; 1; 195; 194; 7; 9].
 Lemma w_evidence_accepted : exists v b', decode_t S_staking_EvidenceDoubleSign w_evidence = Some v /\
   encode_t S_staking_EvidenceDoubleSign v = Some b' /\ bytes_eqb b' w_evidence = false.
-Proof. eexists. eexists. split; [|split]; vm_compute; reflexivity. Qed.
+Proof.
+  eexists. eexists. split; [vm_compute; reflexivity|]. split; [vm_compute; reflexivity|]. vm_compute; reflexivity.
+Qed.
+
+(* a Validator record whose Expelled byte is 5 *)
+Definition w_validator : bytes := [248;66;248;63;110;148;1;0;0;0;0;0;0;0;0;0;0;0;0;0;0;0;0;0;0;0;148;2;0;0;0;0;0;0;0;0;0;0;0;0;0;0;0;0;0;0;0;1;1;128;128;3;4;9;1;9;1;128;128;128;128;128;128;192;194;128;128;5].
+Lemma w_validator_accepted : exists v b', decode_t S_state_Validator w_validator = Some v /\
+  encode_t S_state_Validator v = Some b' /\ bytes_eqb b' w_validator = false.
+Proof.
+  eexists. eexists. split; [vm_compute; reflexivity|]. split; [vm_compute; reflexivity|]. vm_compute; reflexivity.
+Qed.
 
 Definition canonical_full : Prop :=
   forall ty s b v, In (ty, s) all_schemas -> decode_t s b = Some v -> encode_t s v = Some b.
